@@ -10,7 +10,7 @@ import random
 
 from . import common
 
-MODULES = ["CoapVerif.Props.C09", "CoapVerif.Findings.C09"]
+MODULES = ["CoapVerif.Props.C09", "CoapVerif.Findings.C09", "CoapVerif.Props.C18Runner"]
 GENERATED = ["BlockingWaits.lean"]
 OPS = ["get", "observe", "obscancel", "ping", "write"]
 POINTS = ["pre", "sent", "acked", "queued", "midblock"]
@@ -79,6 +79,14 @@ def run(ctx):
     art = common.standard_prepare(ctx, MODULES, hx=False, test=True, generated=GENERATED)
     if art.get("test"):
         explore(ctx, art)
+    # the sweep that completes a closed datagram peer's shutdown (and every connection's housekeeping) is driven by the
+    # housekeeping runner: the same register / finish / tick histories as in C18, against Model/Runner.lean
+    from . import c18
+    with common.Lock():
+        rt = common.build_test(ctx, "c18")
+        rd = common.build_driver(ctx, "C18")
+    if rt and rd:
+        c18.runner_check(ctx, rt, rd, random.Random(ctx.seed), ctx.tier == "thorough", "C09", "returns-and-clean-close")
     return common.finish(ctx)
 
 
@@ -88,6 +96,20 @@ def replay(ctx, rep):
     if not lines:
         print("replay file names no failing input:", rep.get("no_longer_checks"))
         return 1
+    if lines[0].startswith("rcfg"):   # a housekeeping-runner history
+        from . import c18
+        with common.Lock():
+            rt = common.build_test(ctx, "c18")
+            rd = common.build_driver(ctx, "C18")
+        impl = common.run_test_harness(ctx, rt, "TestC18Runner", lines, tag="replay")
+        rc, model, _ = common.pipe_lines([rd, "runner"], lines)
+        bad = 0
+        for l, o, m in zip(lines, impl, model):
+            print("%s: implementation `%s`  specification `%s`" % (l, o, m))
+            bad += o != m
+        if bad:
+            print("VIOLATION property=C09 replay=(replayed) still reproduces")
+        return 1 if bad else 0
     impl = common.run_test_harness(ctx, art["test"], "TestC09", lines, tag="replay")
     rc, judge, _ = common.pipe_lines([art["driver"], "judge"], [l + " | " + o for l, o in zip(lines, impl)])
     bad = 0
